@@ -121,6 +121,60 @@ def _run_task(args):
     return out
 
 
+def _err_record(a, msg):
+    return {"qualname": a[0], "variant": a[1], "concrete": a[2] if len(a) > 2 else None, "results": [], "limit": None,
+            "error": msg}
+
+
+def _child(fn, arg, conn):
+    try:
+        conn.send(fn(arg))
+    except BaseException:          # noqa - report everything to the parent
+        conn.send(_err_record(arg, traceback.format_exc()))
+    finally:
+        conn.close()
+
+
+def run_tasks(fn, args, jobs, task_timeout):
+    """run fn(arg) for every arg in its own process, at most `jobs` at a time, each under a hard wall-clock limit.
+    A worker that dies (solver crash, OOM kill) or overruns yields an error record instead of hanging the check."""
+    ctx = mp.get_context("fork")
+    pending = list(enumerate(args))
+    running = {}
+    results = [None] * len(args)
+    while pending or running:
+        while pending and len(running) < jobs:
+            i, a = pending.pop(0)
+            pc, cc = ctx.Pipe(duplex=False)
+            pr = ctx.Process(target=_child, args=(fn, a, cc), daemon=True)
+            pr.start()
+            cc.close()
+            running[i] = (pr, pc, time.time(), a)
+        time.sleep(0.02)
+        for i in list(running):
+            pr, pc, t0, a = running[i]
+            done = False
+            if pc.poll():
+                try:
+                    results[i] = pc.recv()
+                except EOFError:
+                    results[i] = None
+                done = True
+            elif not pr.is_alive():
+                done = True
+            elif time.time() - t0 > task_timeout:
+                pr.kill()
+                results[i] = _err_record(a, f"task exceeded the hard limit of {task_timeout}s and was killed")
+                done = True
+            if done:
+                pr.join(timeout=5)
+                if results[i] is None:
+                    results[i] = _err_record(a, f"worker process died (exit code {pr.exitcode})")
+                pc.close()
+                del running[i]
+    return results
+
+
 def run_replay(cex, tree, path):
     os.makedirs(os.path.dirname(path), exist_ok=True)
     with open(path, "w") as f:
@@ -164,13 +218,14 @@ def check_property(prop, tier="quick", tree="/repo", record=False, jobs=None, le
              for cfg in (bounded if not getattr(REG.contracts[q], "own_bounds", False) else [{"own": True}])
              if getattr(REG.contracts[q], "bounded", True)]
     unb = lambda q: getattr(REG.contracts[q], "unbounded", True)
-    with mp.Pool(jobs or min(16, os.cpu_count() or 4)) as pool:
-        # phase 1: bounded (quantifier-free) instances: fast, yields replayable counterexamples
-        resB = pool.map(_run_task, jobsB, chunksize=1)
-        refuted_names = frozenset(o["name"] for r in resB for o in r["results"] if o["status"] == "refuted")
-        # phase 2: unbounded proofs; obligations already refuted in phase 1 are not attempted again
-        jobsA = [(q, v, None, timeout_ms, tree, True, refuted_names) for (q, v) in tasks if unb(q)]
-        resA = pool.map(_run_task, jobsA, chunksize=1)
+    njobs = jobs or min(16, os.cpu_count() or 4)
+    hard = 240 if tier == "quick" else 1800
+    # phase 1: bounded (quantifier-free) instances: fast, yields replayable counterexamples
+    resB = run_tasks(_run_task, jobsB, njobs, hard)
+    refuted_names = frozenset(o["name"] for r in resB for o in r["results"] if o["status"] == "refuted")
+    # phase 2: unbounded proofs; obligations already refuted in phase 1 are not attempted again
+    jobsA = [(q, v, None, timeout_ms, tree, True, refuted_names) for (q, v) in tasks if unb(q)]
+    resA = run_tasks(_run_task, jobsA, njobs, hard)
     res = resA + resB
     D = Decision(prop)
     # ---- crashes / out of reach
